@@ -217,7 +217,7 @@ func buildOption(c Case, s *fakeredis.Server) rueidis.ClientOption {
 		ReadBufferEachConn: 4096, WriteBufferEachConn: 4096, RingScaleEachConn: 4,
 		DisableRetry: true,
 	}
-	o.Dialer.Timeout = 2 * time.Second
+	o.Dialer.Timeout = 10 * time.Second // never reached unless the machine stalls: a setup step that gets no reply is injected as a closed connection, not as silence
 	switch c.Auth {
 	case 1:
 		o.Password = cPass
